@@ -16,6 +16,10 @@ Decided (structural):
         edge; get_commands returns an index >= next_send computed from the loop variable.
  R5 K2  the requester accepts a response only when response_index == next_message_index and then
         bumps it by one (see also C18-R2).
+ R6 K6  coverage bookkeeping: every TraversalQueue::cover_up_to(segment, coverage, longest) call is given the
+        popped head's segment and max_cut as (segment, coverage) and that segment's longest_max_cut() as
+        `longest` (swapped, a partly covered queued segment is dropped whole and its tail is never sent,
+        while its descendants are: the requester gets commands without their parents).
 Not decided: termination and ingestibility for arbitrary graph pairs (value-level progress)."""
 from rules.core import pat
 from rules.core.facts import Operand, Place, PASS_THROUGH
@@ -124,6 +128,22 @@ def run(F, rep, tier):
     rep.check(ok, "find_needed_segments|sorted-before-return", "K1 must-pass-through",
               "`collected` is sorted after the last insertion and before it is returned",
               "find_needed_segments returns the send list unsorted (children could precede parents)", fn.site())
+    cu = [(f, c) for f, c in F.callers_of("TraversalQueue::cover_up_to") if not f.derived]
+    if not cu:
+        rep.anchor_missing("no call of TraversalQueue::cover_up_to found")
+    for f, c in cu:
+        o1 = f.origins(c.args[1], through_calls=PASS_THROUGH)
+        o2 = f.origins(c.args[2], through_calls=PASS_THROUGH)
+        o3 = f.origins(c.args[3], through_calls=PASS_THROUGH)
+        ok = "field:segment" in o1 and "field:max_cut" in o2 and "call:longest_max_cut" not in o2 and "call:longest_max_cut" in o3 and "field:max_cut" not in o3
+        if ok:
+            # `longest` is the longest max_cut of the segment fetched for the same head
+            lm = [x for x in f.calls if x.name == "longest_max_cut" and x.bb in {y.bb for k, y in f.backward_sources(c.args[3].place.local, through_calls=PASS_THROUGH)[1] if k == "call"}]
+            ok = bool(lm) and any("call:get_segment" in f.origins(x.args[0], through_calls=PASS_THROUGH + ("get_segment",)) for x in lm)
+        rep.check(ok, "%s|cover_up_to-arguments" % f.name, "K6 provenance",
+                  "cover_up_to(head.segment, head.max_cut, segment.longest_max_cut())",
+                  "%s calls TraversalQueue::cover_up_to with coverage / longest not being (the popped head's max_cut, its segment's longest_max_cut()): "
+                  "a queued segment entered in the middle is then dropped whole instead of trimmed, and its uncovered tail is never sent" % f.name, f.site(c.line))
     loc = F.adt("aranya_runtime::storage::Location")
     fields = [x["name"] for x in loc["variants"][0]["fields"]]
     ords = [i for i in F.impls_of("storage::Location", "cmp::Ord") if i["derived"]]
